@@ -1,7 +1,7 @@
 (* C12 — A completed rebalance assigns each partition to exactly one subscriber.
    Only statements closed by [exact]; proofs live in proofs/CoordinatorProofs.v.
    The model is of JoinGroup WITH fixes/C12-rejoin-changed-subscription.patch. *)
-From KS Require Import lib.Base model.Coordinator proofs.CoordinatorBase proofs.CoordinatorProofs proofs.CoordinatorTrace.
+From KS Require Import lib.Base model.Coordinator model.CoordinatorFaults proofs.CoordinatorBase proofs.CoordinatorProofs proofs.CoordinatorTrace proofs.CoordinatorFaults.
 Open Scope Z_scope.
 
 (* (1) For every history (joins, syncs, heartbeats, leaves, commits, cleanup ticks at any
@@ -42,6 +42,19 @@ Theorem C12_one_map_per_generation_multi : forall E h h2 n0 n1 g g',
   stable_same g g'.
 Proof. intros E h h2 n0 n1 g g'. apply c12_same_generation. apply run_inv. Qed.
 Print Assumptions C12_one_map_per_generation_multi.
+
+(* (1f) the same for all histories with arbitrary transient store failures (load, whole-group
+       write, offset write; see model/CoordinatorFaults.v): a sync answered NONE hands out
+       the partition; no hypothesis on the faults. (A failing store.Metadata inside the
+       leader's sync is NOT covered: collectTopicPartitions then assigns partition 0 of every
+       subscribed topic only; the harness injects no fault there.) *)
+Theorem C12_assignment_partition_under_store_faults : forall E h mid gen now f s' a,
+  stepf E (runf E h) (Sync mid gen now) f = (s', Some (RSync NONE a)) ->
+  exists g, s_mem s' = Some g /\ g_gen g = gen /\ In mid (keys g) /\ a = assignment_of g mid /\
+            (forall id, In id (keys g) -> assignment_of g id = assign_for E (subs (g_members g)) id) /\
+            is_partition E g.
+Proof. intros E h. intros. eapply c12f_assignment_partition; [apply runf_inv2|eassumption]. Qed.
+Print Assumptions C12_assignment_partition_under_store_faults.
 
 (* the assignment function itself, for any member/subscription map with distinct ids *)
 Theorem C12_round_robin_unique : forall E sm a b t psa psb p,
